@@ -202,7 +202,8 @@ class Scen:
 
 class C12(SeqProp):
     pid = "C12"
-    spec_import = "Require Import PV.Spec.SpecC12."
+    spec_import = "Require Import PV.Spec.SpecC12.\nRequire PV.Proofs.C12Spec."
+    dom_fn = "PV.Proofs.C12Spec.ops_in_domain"     # the domain of c12_spec_model / c18_spec_model
     spec_fn = "spec_c12"
     rule = ("each scenario is a history over one shared counter (f64 or u64) or histogram and/or one vector of it with 2-3 children, 1-3 local "
             "handles plus clones (local counters / histograms and local vectors), 5-40 mutating operations (local updates, flush, second flush, "
